@@ -22,6 +22,7 @@ struct Case {
     matching: bool,
     audited: Vec<u64>, // majors of FP with a local full audit
     stray_policy: bool, // an audit-as entry for a crate that is not in the graph
+    yanked: Vec<u64>, // published majors of FP the index marks as yanked
 }
 
 fn gen_case(rng: &mut Rng) -> Case {
@@ -42,6 +43,7 @@ fn gen_case(rng: &mut Rng) -> Case {
         matching: rng.chance(2, 3),
         audited: (1..=6).filter(|_| rng.chance(2, 3)).collect(),
         stray_policy: rng.chance(1, 10),
+        yanked: (1..=6).filter(|_| rng.chance(1, 4)).collect(),
     }
 }
 
@@ -81,6 +83,9 @@ fn build(c: &Case) -> (cmd::Project, cmd::Remote) {
         remote.registry.insert(FP.into(), vs.iter().map(|m| cmd::RegVersion { version: semver(*m), user: Some(1), day: 0 }).collect());
         if c.matching {
             remote.matching_metadata.insert(FP.into());
+        }
+        for m in vs.iter().filter(|m| c.yanked.contains(m)) {
+            remote.yanked.insert((FP.into(), semver(*m)));
         }
     }
     let w = cmd::CmdWorld { graph, config, audits, remote: remote.clone() };
